@@ -37,7 +37,14 @@ Name(sch, i) == IF sch = 0 THEN "n" \o ToString(i) ELSE Schemes[sch][i]
 INames == {"x", "y"}
 
 \* ---------------------------------------------------------------- domain
-OutKinds(n) == IF n <= MaxRichN THEN {<<>>, <<"0">>, <<"a">>, <<"a", "b">>, <<"0", "a">>} ELSE {<<>>, <<"0">>, <<"a", "b">>}
+\* twelve numbered outputs in their natural order 0, 1, 2, ..., 11 - which is NOT the lexicographic order of their names
+Twelve == <<"0", "1", "2", "3", "4", "5", "6", "7", "8", "9", "10", "11">>
+OutKinds(n) == IF n <= MaxRichN THEN {<<>>, <<"0">>, <<"a">>, <<"a", "b">>, <<"0", "a">>, Twelve} ELSE {<<>>, <<"0">>, <<"a", "b">>}
+\* the ORDER of a node's outputs is part of the node (the values of a multi-output task are bound to them in that order):
+\* every graph with a multi-output node is generated a second time with all its output lists reversed (rev), so that each
+\* two-output list occurs in both orders and the numbered list also counting down
+HasMulti(outs) == \E j \in DOMAIN outs : Len(outs[j]) >= 2
+Reversed(q) == [i \in 1..Len(q) |-> q[Len(q) + 1 - i]]
 
 \* py: a Python literal in repr-normal form (the harness evaluates it to build the payload and reports repr(payload) of
 \* what comes back, so the expected report IS py); json: JSON represents the value faithfully
@@ -71,11 +78,13 @@ Offsets(n) == IF n = 0 THEN {0} ELSE IF n <= MaxPayN THEN 0..(NP - 1) ELSE IF n 
 \* names consumed nodes (as hand-built graphs and unions of graphs do) - same graph, other representation; only generated
 \* when the graph has an edge (otherwise the two lists coincide)
 HasEdge(ins) == \E j \in DOMAIN ins : \E x \in INames : ins[j][x] # NoSrc
-Variants(n, ins) == {<<0, off, "terminals">> : off \in Offsets(n)}
-               \cup (IF n = 0 THEN {} ELSE {<<sch, 0, "terminals">> : sch \in SchemesFor(n)})
-               \cup (IF HasEdge(ins) THEN {<<0, 0, "all">>} ELSE {})
-PlainOf(n) == UNION {UNION {{[kind |-> "plain", n |-> n, outs |-> outs, ins |-> ins, off |-> v[2], sch |-> v[1], sinks |-> v[3]]
-                               : v \in Variants(n, ins)} : ins \in InsUpTo(outs, n)} : outs \in [1..n -> OutKinds(n)]}
+Variants(n, ins, outs) == {<<0, off, "terminals", FALSE>> : off \in Offsets(n)}
+               \cup (IF n = 0 THEN {} ELSE {<<sch, 0, "terminals", FALSE>> : sch \in SchemesFor(n)})
+               \* (the two representation variants for graphs of up to MaxRichN nodes)
+               \cup (IF n <= MaxRichN /\ HasEdge(ins) THEN {<<0, 0, "all", FALSE>>} ELSE {})
+               \cup (IF n <= MaxRichN /\ HasMulti(outs) THEN {<<0, 0, "terminals", TRUE>>} ELSE {})
+PlainOf(n) == UNION {UNION {{[kind |-> "plain", n |-> n, outs |-> outs, ins |-> ins, off |-> v[2], sch |-> v[1], sinks |-> v[3], rev |-> v[4]]
+                               : v \in Variants(n, ins, outs)} : ins \in InsUpTo(outs, n)} : outs \in [1..n -> OutKinds(n)]}
 Plain == UNION {PlainOf(n) : n \in 0..MaxN}
 
 RECURSIVE SeqsUpTo(_, _)
@@ -89,7 +98,7 @@ FluentAll == {[kind |-> "fluent", n |-> n, yields |-> y, ops |-> ops, union |-> 
 Fluent == {c \in FluentAll : c.union => c.ops # <<>>}
 \* the domain is Plain followed by Fluent (two record shapes, kept apart)
 
-NodeJson(c, j) == [name |-> Name(c.sch, j), outs |-> c.outs[j],
+NodeJson(c, j) == [name |-> Name(c.sch, j), outs |-> IF c.rev THEN Reversed(c.outs[j]) ELSE c.outs[j],
                    inputs |-> SetToSeq({<<x, Name(c.sch, c.ins[j][x][1]), c.ins[j][x][2]>> : x \in {y \in INames : c.ins[j][y] # NoSrc}}),
                    payload |-> PayloadOf(c.off, j).py, jsonok |-> PayloadOf(c.off, j).json]
 CaseJson(c) == IF c.kind = "plain" THEN [kind |-> "plain", sinks |-> c.sinks, nodes |-> [j \in 1..c.n |-> NodeJson(c, j)]]
